@@ -11,6 +11,12 @@ correspond: (PsdProj: see psd_stream — generated body of psd_proj run on exact
             round 4: the model's l1_proj IS the generated body Gen/ProxBody.l1projWith (merge sort for xp.sort); stream
             stack-generated: the generated Stack._prox / util.split / util.vec / Prox.__call__ (driver op callgen) vs the
             real Stack; stream sort-contract: numpy.sort(|x|) is a non-decreasing permutation (hypothesis SortContract).
+            round 5 (robustness of the tie): the translator reads the source through harness/translate/c11_norm.py (private
+            helpers inlined, keyword arguments resolved, append-loops = comprehensions, single-use temporaries substituted,
+            mirrored comparisons) so that behaviour-preserving respellings regenerate the SAME Gen definitions; where the
+            generated definition legitimately changes (guard spelled with De Morgan / nested ifs / continue, commuted
+            products and sums) the bridging proofs go through simp/omega/ring normal forms (checkShape_is_generated,
+            l1projWith_shape, linf_bias_prox_real, conj_moreau, l1reg_prox_*_array).
 search:     the property's own oracle on the real code, independent of the model: Fenchel-Young / normal-cone
             optimality certificates composed over the nesting, objective comparison against perturbations,
             projection inequality, feasible => unchanged, idempotence, output shape == input shape.
@@ -72,7 +78,8 @@ MANIFEST_TEXT_ADD = (
     "executable model).")
 MANIFEST_NOTE = (
     "Trusted: Lean kernel; translator gen_c11 (symbolic execution of straight-line _prox bodies and numba kernels; "
-    "array-level extraction of psd_proj over PsdOps); numpy elementwise evaluation / sort / cumsum / flatnonzero.max / norm / "
+    "array-level extraction of psd_proj over PsdOps) with its source normaliser c11_norm (helper inlining, keyword resolution, "
+    "append-loop = comprehension, single-use temporaries; pure-expression reordering assumed unobservable); numpy elementwise evaluation / sort / cumsum / flatnonzero.max / norm / "
     "split-vec plumbing tied by correspondence (hypotheses of l1_proj_duchi_*: sort(..)[::-1] is a non-increasing arrangement, "
     "cumsum the partial sums); numpy.linalg.eigh's spectral contract (hypothesis of psd_proj_prox; checked numerically on "
     "every run incl. repeated eigenvalues) and the meaning of +, conj, .T, /k, @, broadcasting *, masked assignment fixed by "
@@ -1054,6 +1061,11 @@ def correspond(ctx):
         "by probing the real Linop with basis vectors (Linop correctness is C01/C03/C09's subject)",
         "float execution of the real classes is compared with the exact model at 1e-12 (relative to max(1, |value|))",
         "cupy paths are not exercised",
+        "the translator reads prox.py / thresh.py / util.py through the normaliser harness/translate/c11_norm.py (private helpers "
+        "inlined, keyword arguments resolved against the callee's signature, append-loops as comprehensions, single-assignment "
+        "single-use temporaries substituted at their use): moving a pure expression to its single use is assumed unobservable "
+        "(which numpy exception is raised first is not modelled); anything outside the normaliser's subset is left as written "
+        "and rejected by the matchers",
     ]
     q = ctx.tier == "quick"
     rng = ctx.rng
